@@ -530,7 +530,7 @@ def main(rep, ws, tier):
     narrowing(rep, ws, [gen('d')], 'R17.prec', floor=3)
     rep.floor('utility obligations', len(rep.obs), 30)
     rep.assumptions += ['solveNormalizedCubic cells: csqrt / clog / pow / exp / cos / sin / __divdc3 / __muldc3 replaced by their C99 Annex G / libstdc++ definitions on the cell; the double constants nearest 1/3 and sqrt(3) read as 1/3 and sqrt(3)', 'NaN-free operands for the order rules', 'exact real arithmetic for lerp identities', 'no intermediate negation overflows in divs/mods/divp/modp (the property\'s proviso)', '|x| < 2^31 for floor/ceil/trunc (int(x) defined)']
-    rep.undecided_clauses += ['accuracy of the root solvers', 'rgb<->hsv round trip and packed round trip (run-time arithmetic)']
+    rep.undecided_clauses += ['accuracy of the root solvers', 'rgb<->hsv round trip (run-time arithmetic)']
 
 def check_next(rep, ws):
     bc = ws.compile_file('c17_fun', build.REPO + '/src/Imath/ImathFun.cpp')
@@ -605,10 +605,50 @@ def check_colour(rep, ws, tier):
     tu.add('w_packed2rgb_C4', 'Color4<float>& o, const unsigned int& p', 'packed2rgb(p, o);', pk='C4')
     tu.add('w_packed2rgb_V3c', 'Vec3<verif_uchar>& o, const unsigned int& p', 'packed2rgb(p, o);', pk='V3', pkt=('i8', 1))
     tu.add('w_packed2rgb_C4c', 'Color4<verif_uchar>& o, const unsigned int& p', 'packed2rgb(p, o);', pk='C4', pkt=('i8', 1))
+    tu.add('w_rgb2packed_V3', 'unsigned int& o, const Vec3<float>& c', 'o = rgb2packed(c);', rp='V3')
+    tu.add('w_rgb2packed_C4', 'unsigned int& o, const Color4<float>& c', 'o = rgb2packed(c);', rp='C4')
     mod2 = ws.module(tu.name, tu.source(), opaque=('hsv2rgb_d', 'rgb2hsv_d'))
     I2 = vg.Interp(mod2)
     whereh = 'src/Imath/ImathColorAlgo.h'
     for name, m in tu.meta.items():
+        if 'rp' in m:
+            # rgb2packed: channel k of a float colour lands in bits [8k+7:8k] (alpha: the constant 0xFF for a 3-channel colour), and
+            # rgb2packed(packed2rgb(p)) gives every 8-bit channel back - folded bit-exactly (binary32) for all 256 values of each
+            # channel, the other channels all-zero and all-one
+            from .c07 import _ev3
+            n = 3 if m['rp'] == 'V3' else 4
+            try:
+                S = I2.run(name); Sp = I2.run('w_packed2rgb_' + m['rp'])
+                out = S.out('a0', 0, 4, 'i32')
+                cin = [T.inp('a1', 4 * i, 4, 'float') for i in range(n)]
+                word = T.inp('a1', 0, 4, 'i32')
+                chans = [Sp.out('a0', 4 * i, 4, 'float') for i in range(n)]
+                bad = None; nev = 0
+                alpha = 0xFF000000 if n == 3 else 0
+                for k in range(n):
+                    env = {'ieee': True}
+                    for i in range(n): env[cin[i].id] = 1.0 if i == k else 0.0
+                    got = _ev3(out, env, {})
+                    want = (0xFF << (8 * k)) | alpha
+                    if got != want: bad = 'a colour whose only non-zero channel is channel %d (= 1) packs to %s, expected 0x%08x' % (k, ('0x%08x' % got) if isinstance(got, int) else got, want); break
+                for k in range(n if not bad else 0):
+                    for fill in (0x00000000, 0xFFFFFFFF):
+                        for cv in range(256):
+                            p = (fill & ~(0xFF << (8 * k)) & 0xFFFFFFFF) | (cv << (8 * k))
+                            vals = [_ev3(ch, {'ieee': True, word.id: p}, {}) for ch in chans]
+                            if any(v is None for v in vals): raise vg.Unsupported('packed2rgb does not fold at a constant word')
+                            env = {'ieee': True}
+                            for i in range(n): env[cin[i].id] = vals[i]
+                            back = _ev3(out, env, {}); nev += 1
+                            want = p if n == 4 else ((p & 0xFFFFFF) | 0xFF000000)
+                            if back != want:
+                                bad = 'rgb2packed(packed2rgb(0x%08x)) = %s: channel %d with value %d does not survive the round trip' % (p, ('0x%08x' % back) if isinstance(back, int) else back, k, cv); break
+                        if bad: break
+                    if bad: break
+                rep.ob('rgb2packed<%s>' % m['rp'], 'R17.col', VIOLATED if bad else HOLDS, bad or 'channel k -> bits [8k+7:8k]; round trip through packed2rgb exact for all 256 values of every channel (%d words folded in binary32)' % nev, whereh)
+            except (vg.Unsupported, KeyError) as e:
+                rep.ob('rgb2packed<%s>' % m['rp'], 'R17.col', UNDECIDED, repr(e)[:300], whereh)
+            continue
         if 'pk' in m:
             S = I2.run(name)
             n = 3 if m['pk'] == 'V3' else 4
